@@ -48,7 +48,11 @@ def allowed_effects_rule(prog, res):
     from paths import root_of as _root_of
     whole = [n for n in gp.nodes if n['k'] == 'CXXOperatorCallExpr' and n.get('op') == '=' and R.render(n['args'][1]) == 'arg0' and
              (R.render(n['args'][0]).startswith('this._parameters[') or _root_of(gp, n['args'][0]) == ('this', ['_parameters', '[]']))]
-    if extra or partial or len(whole) != 1:
+    if not extra and not partial and len(whole) == 0 and [n for n in gp.nodes if n['k'] == 'CXXOperatorCallExpr' and n.get('op') == '=' and R.render(n['args'][1]) == 'arg0']:
+        # the argument is assigned as a whole to something the rule cannot name as an element (through a pointer / iterator to it)
+        res.undecided('effects', 'Group::parameter(const Parameter&)', gp.loc(), 'the argument is assigned as a whole to a place the rule cannot resolve to an element of _parameters [shape not read by the rule]',
+                      function=gp.sig, expr='gp')
+    elif extra or partial or len(whole) != 1:
         res.viol('effects', 'Group::parameter(const Parameter&)', gp.loc(),
                  'may only append the parameter or assign the matched element as a whole; found extra effects %s, partial element writes %s, %d whole-element assignments of the argument' %
                  (sorted(FX.fmt(e) for e in extra), partial, len(whole)), function=gp.sig, expr='effects')
@@ -661,6 +665,25 @@ def lock_rule(prog, res):
             effs = eff(prog, f)
             if effs == [('this', ('_isLocked',), 'assign')] and len(asg) == 1 and asg[0][0] == 'this._isLocked' and asg[0][1] in val:
                 res.ok('lock', '%s::%s' % (cls.split('::')[-1], name), f.loc(), 'writes exactly the flag', function=f.sig, expr='flag')
+            elif effs == [('this', ('_isLocked',), 'assign')]:
+                # only the flag is written, through a member / in another spelling: the value it ends with, from either start
+                import a7
+                finals = []
+                for start in (False, True):
+                    st_ = {'fields': True}
+                    try:
+                        _e, end_, _u = a7.walk(f, {'this._isLocked': start}, follow_loops=True, max_steps=300, state=st_)
+                        finals.append(st_['model'].get('this._isLocked') if end_ == 'NEXIT' else None)
+                    except Exception:
+                        finals.append(None)
+                want_ = (name == 'lock')
+                if all(isinstance(x, (bool, int)) and x is not None for x in finals) and all(bool(x) == want_ for x in finals):
+                    res.ok('lock', '%s::%s' % (cls.split('::')[-1], name), f.loc(), 'writes exactly the flag (final value %s from either start)' % want_, function=f.sig, expr='flag')
+                elif all(isinstance(x, (bool, int)) and x is not None for x in finals):
+                    res.viol('lock', '%s::%s' % (cls.split('::')[-1], name), f.loc(), '%s leaves _isLocked = %s (from unlocked / locked), documented: %s' % (name, [bool(x) for x in finals], want_),
+                             function=f.sig, expr='flag', sure=True)
+                else:
+                    res.undecided('lock', '%s::%s' % (cls.split('::')[-1], name), f.loc(), 'the value the flag ends with cannot be evaluated [shape not read by the rule]', function=f.sig, expr='flag')
             else:
                 res.viol('lock', '%s::%s' % (cls.split('::')[-1], name), f.loc(), '%s must only set _isLocked = %s; effects %s' % (name, val[0], [FX.fmt(e) for e in effs]), function=f.sig, expr='flag')
     for name in ('lockGroup', 'unlockGroup'):
